@@ -262,6 +262,32 @@ type Shape struct {
 	Svc  string
 	Meth string
 	In   string // full name of the request message
+	// the header parameters the real OpenAPI document publishes for this operation (C09), nil = not looked up
+	Published *Published
+}
+
+// PubParam is one "in: header" parameter of an OpenAPI operation.
+type PubParam struct {
+	Name     string `json:"name"`
+	Lname    string `json:"lname"`
+	Required bool   `json:"required"`
+	Type     string `json:"type"`
+	Format   string `json:"format"`
+}
+
+// Published is what the document says about one operation.
+type Published struct {
+	Found  bool       `json:"found"` // the operation exists in the document
+	Params []PubParam `json:"params"`
+}
+
+// Path is the route of the shape as declared (with {var} segments).
+func (sh *Shape) Path() string {
+	path := fmt.Sprintf("/s%d", sh.Idx)
+	for _, v := range sh.Rpc.PathVars {
+		path += "/{" + v + "}"
+	}
+	return path
 }
 
 const shapesPerPkg = 40
@@ -276,8 +302,19 @@ func shapeKey(r Rpc) string {
 func BuildSchema(prefix string, shapes []*Shape) *abs.Schema {
 	s := &abs.Schema{}
 	files := map[int]*abs.File{}
+	methOrd := map[*abs.Method]int{}
+	groupPkg := map[string]int{}
+	groupSvc := map[string]*abs.Service{}
 	for _, sh := range shapes {
 		sh.Pkg = sh.Idx / shapesPerPkg
+		if g := sh.Rpc.Group; g != "" {
+			// the methods of one service live in one file: that of the group's first shape
+			if p, ok := groupPkg[g]; ok {
+				sh.Pkg = p
+			} else {
+				groupPkg[g] = sh.Pkg
+			}
+		}
 		f := files[sh.Pkg]
 		if f == nil {
 			pk := fmt.Sprintf("%s%d", prefix, sh.Pkg)
@@ -300,6 +337,9 @@ func BuildSchema(prefix string, shapes []*Shape) *abs.Schema {
 		}
 		pk := f.Pkg
 		sh.Svc = fmt.Sprintf("S%d", sh.Idx)
+		if sh.Rpc.Group != "" {
+			sh.Svc = "G" + sh.Rpc.Group
+		}
 		sh.Meth = fmt.Sprintf("M%d", sh.Idx)
 		sh.In = fmt.Sprintf("%s.Req%d", pk, sh.Idx)
 		msg := &abs.Message{Name: fmt.Sprintf("Req%d", sh.Idx)}
@@ -338,17 +378,34 @@ func BuildSchema(prefix string, shapes []*Shape) *abs.Schema {
 			path += "/{" + v + "}"
 		}
 		sv := &abs.Service{Name: sh.Svc}
+		first := true
+		if g := sh.Rpc.Group; g != "" {
+			if old, ok := groupSvc[g]; ok {
+				sv, first = old, false
+			} else {
+				groupSvc[g] = sv
+			}
+		}
 		me := &abs.Method{Name: sh.Meth, In: sh.In, Out: pk + ".Out", HasCfg: true, Path: path, Verb: sh.Rpc.Verb}
 		for _, h := range sh.Rpc.Hdrs {
 			ah := &abs.Header{Name: h.Name, Type: h.Type, Format: h.Format, Required: h.Required}
 			if h.Level == "svc" {
-				sv.Headers = append(sv.Headers, ah)
+				if first {
+					sv.Headers = append(sv.Headers, ah)
+				}
 			} else {
 				me.Headers = append(me.Headers, ah)
 			}
 		}
-		sv.Methods = []*abs.Method{me}
-		f.Services = append(f.Services, sv)
+		methOrd[me] = sh.Rpc.Ord
+		sv.Methods = append(sv.Methods, me)
+		if first {
+			f.Services = append(f.Services, sv)
+		}
+	}
+	for _, sv := range groupSvc {
+		ms := sv.Methods
+		sort.SliceStable(ms, func(i, j int) bool { return methOrd[ms[i]] < methOrd[ms[j]] })
 	}
 	sort.Slice(s.Files, func(i, j int) bool { return s.Files[i].Name < s.Files[j].Name })
 	return s
